@@ -108,8 +108,8 @@ TDead ==
   /\ UNCHANGED <<vars, skip, dead, known>>
 
 TPanic ==
-  /\ ~dead /\ IsEvent("panic")
-  /\ Report({"panic"})
+  /\ ~dead /\ l <= Len(TraceLog) /\ TraceLog[l].ev \in {"panic", "hang"} /\ l' = l + 1
+  /\ Report({TraceLog[l].ev})
   /\ dead' = TRUE
   /\ UNCHANGED <<vars, skip, known>>
 
